@@ -86,3 +86,13 @@ Section ZKeys.
       + rewrite IH. reflexivity.
   Qed.
 End ZKeys.
+
+Lemma zin_aget_nodup {V : Type} (k : Z) (v : V) (l : list (Z * V)) :
+  NoDup (map fst l) -> In (k, v) l -> aget Z.eqb k l = Some v.
+Proof.
+  induction l as [|[k' v'] r IH]; simpl; [tauto|]. intros Hnd [H|H].
+  - inversion H; subst. rewrite Z.eqb_refl. reflexivity.
+  - inversion Hnd as [|? ? Hni Hnd']; subst. destruct (k =? k') eqn:E.
+    + assert (k = k') by lia. subst. exfalso. apply Hni. apply in_map_iff. exists (k', v); auto.
+    + auto.
+Qed.
